@@ -367,6 +367,27 @@ def c15(sc, V):
                 if s.cmd() == "add" and r[3] == "ok" and isinstance(p.get("name"), str):
                     if p["name"].lower() not in a.names:
                         f.append({"sig": "add-ok-but-absent", "step": s.n, "msg": "add %r answered ok but no such watcher" % p["name"]})
+                # a request that names a watcher reaches that watcher and no other: start/stop/restart match the
+                # lower-cased name (exactly, or as a glob), so whatever changes in this step belongs to a matching watcher
+                if s.cmd() in ("start", "stop", "restart") and isinstance(p.get("name"), str) and \
+                        p.get("match", "glob") in ("glob", "simple") and s.before.slot is None:
+                    import fnmatch
+                    pat = p["name"].lower()
+                    hit = (lambda n: n.lower() == pat) if p.get("match") == "simple" else \
+                        (lambda n: fnmatch.fnmatchcase(n.lower(), pat))
+                    if "[" not in pat:
+                        for wb in s.before.watchers:
+                            wa = a.w(wb["name"])
+                            touched = wa is None or (wa["status"], wa["procs"]) != (wb["status"], wb["procs"]) or \
+                                any(m[0] == "ev" and m[1] == res_name(wb["name"]) for m in s.lines)
+                            other_same_res = any(x["name"] != wb["name"] and res_name(x["name"]) == res_name(wb["name"])
+                                                 for x in s.before.watchers)
+                            if touched and not hit(wb["name"]) and not other_same_res:
+                                f.append({"sig": "request-reached-other-watcher", "step": s.n,
+                                          "msg": "%s %r changed watcher %r" % (s.cmd(), p["name"], wb["name"])})
+                        if r[4] == "3" and any(hit(wb["name"]) for wb in s.before.watchers):
+                            f.append({"sig": "case-variant-not-found", "step": s.n,
+                                      "msg": "%s %r not found although a watcher matches" % (s.cmd(), p["name"])})
                 if s.cmd() in ("status", "numprocesses", "list", "incr", "decr", "kill", "signal", "rm", "set", "reload") and \
                         isinstance(p.get("name"), str) and p["name"].lower() in s.before.names and r[4] == "3" and \
                         _has_required(s.cmd(), p):
